@@ -248,6 +248,35 @@ def run(rep: Report, tier: str) -> None:  # noqa: C901
     _traversal(P, rep, "R06.9", {"Analytic"})
     from sa.checks.c12 import handler_field_matrix as _matrix
     _matrix(P, rep, "R06.9", {"Analytic", "Windowing", "OrderBy"}, floor=1)
+    # ---- R06.10: partition / order names inside a user-defined operator are the ARGUMENTS of the call (one substitution, no capture) ----
+    rep.rule("R06.10", "_resolve_udo_name evaluated on an operator called with its component parameters swapped (`op(ds, Id_1 component, Id_2 component)` called as "
+                       "`op(DS_1, Id_2, Id_1)`): a parameter resolves to the argument of the call, and the argument - a name of the caller's scope - is not looked up again")
+    from sa import structmodel as _smu
+    from sa.e6 import Interp as _Iu, Raised as _Ru, Unmodelled as _Uu
+    _fr = P.func(_smu.SV + "._resolve_udo_name")
+    _nu = 0
+    for _lab, _scopes, _ask, _want in (
+            ("swapped", [{"ds": _smu.MNode("VarID", value="DS_1"), "Id_1": _smu.MNode("VarID", value="Id_2"), "Id_2": _smu.MNode("VarID", value="Id_1")}], "Id_1", "Id_2"),
+            ("swapped-2", [{"ds": _smu.MNode("VarID", value="DS_1"), "Id_1": _smu.MNode("VarID", value="Id_2"), "Id_2": _smu.MNode("VarID", value="Id_1")}], "Id_2", "Id_1"),
+            ("shifted", [{"a": _smu.MNode("Identifier", value="b"), "b": _smu.MNode("Identifier", value="c")}], "a", "b"),
+            ("plain-string", [{"a": "b", "b": "c"}], "a", "b"),
+            ("unbound", [{"a": _smu.MNode("VarID", value="b")}], "Me_1", "Me_1"),
+            ("no-operator", None, "Me_1", "Me_1")):
+        _t = _smu.MSelf()
+        _t._udo_params = _scopes
+        try:
+            _got = _Iu(P, externals={"isinstance": _smu._isinstance}, max_steps=2000).call(_fr, {"self": _t, "name": _ask})
+        except _Ru as e:
+            _got = f"<raises {type(e.exc).__name__}>"
+        except _Uu as e:
+            raise AnalysisError(f"R06.10: _resolve_udo_name outside the evaluator's language: {e}")
+        _nu += 1
+        rep.instance("R06.10", f"udo-name/{_lab}", nontrivial=True, sample={"bindings": None if _scopes is None else {k: getattr(v, "value", v) for k, v in _scopes[0].items()}, "name": _ask, "resolved": _got})
+        if _got != _want:
+            rep.add(Finding("R06.10", f"R06.10/udo-name/{_lab}", _fr.module.rel, _fr.node.lineno, _fr.qualname,
+                            f"inside an operator whose parameters are bound {({k: getattr(v, 'value', v) for k, v in _scopes[0].items()} if _scopes else {})}, the name {_ask!r} resolves to {_got!r}; "
+                            f"the call passes {_want!r}: `partition by` / `order by` (and calc, rename, group by) inside the operator then address a different component than the caller named"))
+    rep.floor("R06.10 binding shapes", _nu, 6)
     rep.assumptions = ["DuckDB's window functions of the same name implement the VTL analytic operators over the given OVER clause",
                        "grammar alternative <-> constructor method pairing (ANTLR naming)"]
 
